@@ -537,6 +537,11 @@ exec_result execute(u64 seed, const vs::params& prm, int initial_actors, int spa
   rep().count("context_switches", res.switches);
   rep().count("intra_operation_switches", res.intra);
   rep().count("ev_orphans_aged_in_unregister", g_events[unodb::verif::EV_ORPHANS_AGED_IN_UNREGISTER]);
+  {
+    static const char* kn[] = {"LOCK_LOAD_ACQ", "LOCK_LOAD_RLX", "LOCK_CAS", "LOCK_UNLOCK", "LOCK_OBSOLETE", "FIELD_LOAD", "FIELD_STORE", "QSBR_STATE_LOAD", "QSBR_STATE_CAS",
+                               "QSBR_STATE_FETCH_SUB", "ORPHAN_LOAD", "ORPHAN_CAS", "ORPHAN_XCHG", "SPIN", "RESTART", "ORPHAN_TAIL_STORE"};
+    for (int k = 7; k < 16; ++k) if (S.kind_counts[static_cast<std::size_t>(k)] != 0) rep().count(std::string("hook.") + kn[k], S.kind_counts[static_cast<std::size_t>(k)]);
+  }
   const bool nontrivial = w.retire_with_others_registered > 0 && (w.frees_deferred + w.frees_orphaned) > 0 && (g_prop != "C06" || w.frees_orphaned > 0 || g_events[unodb::verif::EV_ORPHANS_AGED_IN_UNREGISTER] > 0);
   if (nontrivial) rep().nontrivial(vh::hash_combine(w.trace_hash, res.signature));
   if (w.violated) {
